@@ -5152,7 +5152,8 @@ bracket_addr_ok(const char *s, const char *eos)
 }
 
 static int
-parse_authority(struct evhttp_uri *uri, char *s, char *eos, unsigned *flags)
+parse_authority(struct evhttp_uri *uri, char *s, char *eos, unsigned *flags,
+    char **end_out)
 {
 	size_t len;
 	char *cp, *port;
@@ -5189,6 +5190,14 @@ parse_authority(struct evhttp_uri *uri, char *s, char *eos, unsigned *flags)
 		if (e) {
 			*e = '\0';
 			uri->unixsocket = mm_strdup(cp + 5);
+			if (uri->unixsocket == NULL) {
+				event_warn("%s: strdup", __func__);
+				return -1;
+			}
+			/* The socket path may contain '/', '?' and '#': the
+			 * authority ends behind the colon that closes it, not
+			 * at 'eos'. */
+			*end_out = e + 1;
 			return 0;
 		} else {
 			return -1;
@@ -5370,7 +5379,7 @@ evhttp_uri_parse_with_flags(const char *source_uri, unsigned flags)
 		readp += 2;
 		authority = readp;
 		path = end_of_authority(readp);
-		if (parse_authority(uri, authority, path, &uri->flags) < 0)
+		if (parse_authority(uri, authority, path, &uri->flags, &path) < 0)
 			goto err;
 		readp = path;
 		got_authority = 1;
@@ -5462,7 +5471,7 @@ evhttp_uri_parse_authority(char *source_uri, unsigned flags)
 	uri->flags = flags;
 
 	end = end_of_authority(source_uri);
-	if (parse_authority(uri, source_uri, end, &uri->flags) < 0)
+	if (parse_authority(uri, source_uri, end, &uri->flags, &end) < 0)
 		goto err;
 
 	uri->path = mm_strdup("");
